@@ -29,6 +29,15 @@ var c13KeywordLike = []string{"printx", "iffy", "nextone", "_in", "isa", "BEGINX
 var c13NumSpellings = []string{"007", "1.50", "0.0", "10", "3", "2.5", "100", "0", "1", "12", "0.5", "00", "3.0",
 	"2147483648", "9007199254740993", "999999999999999999", "9223372036854775807", "9223372036854775808", "9999999999999999999", "18446744073709551616", "12345678901234567890", "9999999999999999999.0", "123456789012345678901234567890"}
 
+// c13MainPattern: half of the programs have a (true) pattern in front of the main rule's body,
+// so that layouts put blanks, comments and line breaks between a pattern and its '{'
+func c13MainPattern(t *rapid.T) *ast.Node {
+	if rapid.Bool().Draw(t, "mainpattern") {
+		return rapid.SampledFrom([]*ast.Node{ast.Bin("!=", ast.Dollar(), ast.Str("no such value")), ast.Un("!", ast.Is(ast.Dollar(), "function")), ast.Num("1"), ast.Bin("<", ast.Num("1"), ast.Num("2"))}).Draw(t, "truepattern").Clone()
+	}
+	return nil
+}
+
 func c13Lexical(t *rapid.T) *DCase {
 	n := func(lo, hi int, l string) int { return rapid.IntRange(lo, hi).Draw(t, l) }
 	num := func() *ast.Node { return ast.Num(rapid.SampledFrom(c13NumSpellings).Draw(t, "numsp")) }
@@ -128,7 +137,7 @@ func c13Lexical(t *rapid.T) *DCase {
 			stmts = append(stmts, ast.If(ast.False(), ast.Block(ast.Print(bad))), ast.Print(ast.Str("alive")))
 		case 6:
 			// ... and is a runtime error when evaluated
-			bad := ast.Str(rapid.SampledFrom([]string{"\\q", "x\\", "a\\zb", "\\N"}).Draw(t, "badesc2"))
+			bad := ast.Str(rapid.SampledFrom([]string{"\\q", "x\\", "a\\zb", "\\N", "a\\\\\\", "\\\\\\\\\\"}).Draw(t, "badesc2"))
 			stmts = append(stmts, ast.Print(ast.Str("before")), ast.Print(bad))
 		case 7:
 			// quoted object keys are string literals too
@@ -151,7 +160,7 @@ func c13Lexical(t *rapid.T) *DCase {
 	// a function and a second statement after a bare print exercise ';' handling
 	items := []*ast.Node{
 		ast.Func("fnx", []string{"inx"}, ast.Block(ast.Print(), ast.Print(ast.Id("inx")), ast.Return(ast.Bin("-", ast.Id("inx"), ast.Num("1"))))),
-		ast.Rule("pattern", nil, ast.Block(append(stmts, ast.Print(ast.Call(ast.Id("fnx"), ast.Num("3"))))...)),
+		ast.Rule("pattern", c13MainPattern(t), ast.Block(append(stmts, ast.Print(ast.Call(ast.Id("fnx"), ast.Num("3"))))...)),
 	}
 	if n(0, 2, "tailrule") == 0 {
 		// a rule without a body as the last thing in the text: the program ends in a
